@@ -160,7 +160,10 @@ def convert_capture(deck_text, args=()):
                 cap.vols_after_post = vols_struct(dic_volume)
                 cap.surfs_after_post = sorted(int(k) for k in dic_surface_t4.keys())
                 cap.cells_after = {int(k): dict(mat=str(c.materialID), rho=c.density, imp=c.importance,
-                                                u=int(c.universe), filled=c.fillid is not None)
+                                                u=int(c.universe), filled=c.fillid is not None,
+                                                fillid=(int(c.fillid) if isinstance(c.fillid, (int, str)) and str(c.fillid).lstrip('-').isdigit() else (None if c.fillid is None else 'array')),
+                                                lat=bool(c.lattice),
+                                                origin=[(int(a), int(b)) for a, b in (c.idorigin or []) if isinstance(a, int) or str(a).isdigit()] if all(isinstance(x, tuple) and len(x) == 2 for x in (c.idorigin or [])) else None)
                                    for k, c in mcnp_new_dict.items()}
             except Exception as e:  # noqa
                 cap.error = 'geometry-capture: %r' % (e,)
